@@ -117,11 +117,19 @@ pub fn tagged<const N: usize>(r: [u8; N]) -> [u8; N] {
 pub struct D {
     pub id: u8,
     pub val: u8,
+    /// position of the source element this value descends from (concrete; decisions are taken on it)
+    pub pos: u8,
 }
 impl D {
+    /// a source element: its id is its position
     pub fn new(val: u8) -> D {
         let id = HS.next_id.fetch_add(1, AO::Relaxed);
-        D { id, val }
+        D { id, val, pos: id }
+    }
+    /// a value produced by a closure from an element at position `pos`
+    pub fn with_pos(pos: u8, val: u8) -> D {
+        let id = HS.next_id.fetch_add(1, AO::Relaxed);
+        D { id, val, pos }
     }
 }
 impl Drop for D {
